@@ -313,9 +313,12 @@ func (ev *Env) eval(e Expr) SVal {
 			}
 			bv := BoundVar(p.Name, ty.scalarSort(), tyKey(ty))
 			vars = append(vars, bv)
-			if ty.K == TBool {
+			switch ty.K {
+			case TBool:
 				nev = nev.with(p.Name, SBool{bv})
-			} else {
+			case TIface:
+				nev = nev.with(p.Name, SIface{bv})
+			default:
 				nev = nev.with(p.Name, SInt{bv, ty})
 			}
 		}
@@ -709,6 +712,17 @@ func (ev *Env) call(x *ECall) SVal {
 			return SInt{BVInt(s.Ty.N, 64), tyInt}
 		}
 		sfail("len of %T", v)
+	case "cand":
+		// cand(e) is e; the term is offered as an instantiation candidate to every quantifier over
+		// its type (a proof hint inside specifications, no logical content)
+		if len(x.Args) != 1 {
+			sfail("cand(e)")
+		}
+		v := ev.eval(x.Args[0])
+		if si, ok := v.(SInt); ok {
+			return SInt{Mark(si.T, tyKey(si.Ty)+"^"), si.Ty}
+		}
+		return v
 	case "ite":
 		c, ok := ev.eval(x.Args[0]).(SBool)
 		if !ok {
